@@ -3,6 +3,8 @@
 package grpcutil
 
 import (
+	"context"
+
 	conformancev1 "connectrpc.com/conformance/internal/gen/proto/go/connectrpc/conformance/v1"
 	"connectrpc.com/connect"
 	"google.golang.org/grpc/metadata"
@@ -149,3 +151,62 @@ func h18b() {
 }
 
 func H18b_q() { h18b() }
+
+// ---- H18f: header lists with repeated keys (same name twice, or names differing only in case) ----
+
+func vKey2(k int) string {
+	switch k {
+	case 0:
+		return "x-a"
+	case 1:
+		return "X-A"
+	case 2:
+		return "x-b-bin"
+	default:
+		return "X-B-Bin"
+	}
+}
+
+// h18f: two header entries; both the server-side conversion (ConvertProtoHeaderToMetadata) and the client-side
+// one (AppendToOutgoingContext) must hand gRPC every value, in order, raw (decoded) for -bin keys.
+func h18f(viaContext bool) {
+	var k, v [2]int
+	var raws [2]string
+	in := make([]*conformancev1.Header, 0, 2)
+	for i := 0; i < 2; i++ {
+		k[i] = vIntAt("key", i, 2, 0, 3)
+		v[i] = vIntAt("val", i, 2, 0, 1)
+		raws[i] = vRaw(v[i])
+		if i == 1 && v[1] == v[0] {
+			raws[i] += "2" // tell the two values apart
+		}
+		val := raws[i]
+		if k[i] >= 2 {
+			val = connect.EncodeBinaryHeader([]byte(raws[i]))
+		}
+		in = append(in, &conformancev1.Header{Name: vKey2(k[i]), Value: []string{val}})
+	}
+	var md metadata.MD
+	if viaContext {
+		ctx := AppendToOutgoingContext(context.Background(), in)
+		md, _ = metadata.FromOutgoingContext(ctx)
+	} else {
+		md = ConvertProtoHeaderToMetadata(in)
+	}
+	sameKey := k[0]/2 == k[1]/2
+	for i := 0; i < 2; i++ {
+		lower := "x-a"
+		if k[i] >= 2 {
+			lower = "x-b-bin"
+		}
+		got := md[lower]
+		if sameKey {
+			vAssert(len(got) == 2 && got[0] == raws[0] && got[1] == raws[1], "entries with the same name (up to case) contribute all their values, in order")
+		} else {
+			vAssert(len(got) == 1 && got[0] == raws[i], "every key keeps its value; -bin values reach gRPC raw (decoded exactly once)")
+		}
+	}
+}
+
+func H18f_q() { h18f(false) }
+func H18g_q() { h18f(true) }
